@@ -7,14 +7,32 @@
 From WalModel Require Import Eval.
 Local Open Scope Z_scope.
 
-(** the part of the context that a completed evaluation must give back *)
+(** the part of the context that a completed evaluation must give back: the current
+    environment and the stack of saved positions; and what it may never do to the heap of
+    environments: frames are only added, and the parent of an existing frame never changes *)
+Definition parents (st : state) : list (option nat) := map f_parent (st_frames st).
+
 Definition R (st st' : state) : Prop :=
-  st_cur st' = st_cur st /\ c_stack (st_cont st') = c_stack (st_cont st).
+  st_cur st' = st_cur st /\ c_stack (st_cont st') = c_stack (st_cont st) /\
+  exists extra, parents st' = parents st +++ extra.
 
 Lemma R_refl st : R st st.
-Proof. split; reflexivity. Qed.
+Proof. split; [reflexivity|]. split; [reflexivity|]. exists []. symmetry. apply app_nil_r. Qed.
 Lemma R_trans a b c : R a b -> R b c -> R a c.
-Proof. intros [H1 H2] [H3 H4]. split; congruence. Qed.
+Proof.
+  intros [H1 [H2 [e1 H3]]] [H4 [H5 [e2 H6]]]. split; [congruence|]. split; [congruence|].
+  exists (e1 +++ e2). rewrite H6, H3, app_assoc. reflexivity.
+Qed.
+
+Lemma parents_upd_cur s x : parents (upd_cur s x) = parents s. Proof. reflexivity. Qed.
+Lemma parents_upd_cont s x : parents (upd_cont s x) = parents s. Proof. reflexivity. Qed.
+
+(** closes a goal [R st st'] (or its heap part) from hypotheses about the intermediate states *)
+Ltac heap_chain :=
+  repeat match goal with H : exists _, parents _ = _ |- _ => let e := fresh "e" in destruct H as [e H] end;
+  rewrite ?parents_upd_cur, ?parents_upd_cont in *;
+  repeat match goal with H : parents ?x = _ |- context [parents ?x] => rewrite H; clear H end;
+  eexists; rewrite <- ?app_assoc; reflexivity.
 
 Definition good {A} (m : M A) : Prop := forall st a st', m st = Ok a st' -> R st st'.
 
@@ -47,36 +65,52 @@ Proof.
   apply good_bind; [apply Hf|intros y]. apply good_bind; [exact IH|intros ys; apply good_ret].
 Qed.
 
-(** state updates that do not touch the current environment or the saved positions *)
-Lemma R_upd_frames s x : R s (upd_frames s x). Proof. split; reflexivity. Qed.
-Lemma R_upd_arrays s x : R s (upd_arrays s x). Proof. split; reflexivity. Qed.
-Lemma R_upd_scope s x : R s (upd_scope s x). Proof. split; reflexivity. Qed.
-Lemma R_upd_group s x : R s (upd_group s x). Proof. split; reflexivity. Qed.
-Lemma R_upd_aliases s x : R s (upd_aliases s x). Proof. split; reflexivity. Qed.
-Lemma R_upd_gensym s x : R s (upd_gensym s x). Proof. split; reflexivity. Qed.
-Lemma R_upd_out s x : R s (upd_out s x). Proof. split; reflexivity. Qed.
+(** state updates that do not touch the current environment, the saved positions or the frames *)
+Ltac R_triv := split; [reflexivity|]; split; [reflexivity|]; exists []; symmetry; apply app_nil_r.
+Lemma R_upd_arrays s x : R s (upd_arrays s x). Proof. R_triv. Qed.
+Lemma R_upd_scope s x : R s (upd_scope s x). Proof. R_triv. Qed.
+Lemma R_upd_group s x : R s (upd_group s x). Proof. R_triv. Qed.
+Lemma R_upd_aliases s x : R s (upd_aliases s x). Proof. R_triv. Qed.
+Lemma R_upd_gensym s x : R s (upd_gensym s x). Proof. R_triv. Qed.
+Lemma R_upd_out s x : R s (upd_out s x). Proof. R_triv. Qed.
 Lemma R_upd_cont s c : c_stack c = c_stack (st_cont s) -> R s (upd_cont s c).
-Proof. intros H. split; [reflexivity|exact H]. Qed.
-#[global] Hint Resolve R_refl R_upd_frames R_upd_arrays R_upd_scope R_upd_group R_upd_aliases R_upd_gensym R_upd_out : goodb.
+Proof. intros H. split; [reflexivity|]. split; [exact H|]. exists []. symmetry. apply app_nil_r. Qed.
+#[global] Hint Resolve R_refl R_upd_arrays R_upd_scope R_upd_group R_upd_aliases R_upd_gensym R_upd_out : goodb.
 
 Lemma good_put_frame_fun {A} (a : A) (g : state -> state) :
   (forall s, R s (g s)) -> good (fun st => Ok a (g st)).
 Proof. intros Hg st x st' H. injection H as _ <-. apply Hg. Qed.
 
-Lemma R_put_frame s id f : R s (put_frame s id f).
-Proof. unfold put_frame. apply R_upd_frames. Qed.
+Lemma map_replace_frame : forall l id f f2,
+  nth_error l id = Some f -> f_parent f2 = f_parent f ->
+  map f_parent (replace_frame l id f2) = map f_parent l.
+Proof.
+  induction l as [|x l IH]; intros id f f2 H Hp; [reflexivity|]. destruct id.
+  - cbn [nth_error] in H. injection H as ->. cbn [replace_frame map]. rewrite Hp. reflexivity.
+  - cbn [replace_frame map nth_error] in *. f_equal. eapply IH; eassumption.
+Qed.
+
+(** replacing a frame by one with the same parent *)
+Lemma R_put_frame s id f f2 : get_frame s id = Some f -> f_parent f2 = f_parent f -> R s (put_frame s id f2).
+Proof.
+  intros H Hp. split; [reflexivity|]. split; [reflexivity|]. exists [].
+  unfold parents, put_frame. cbn [upd_frames st_frames]. rewrite (map_replace_frame _ _ _ _ H Hp). symmetry. apply app_nil_r.
+Qed.
 
 Lemma good_new_frame p : good (new_frame p).
-Proof. intros st x st' H. unfold new_frame in H. injection H as _ <-. apply R_upd_frames. Qed.
+Proof.
+  intros st x st' H. unfold new_frame in H. injection H as _ <-. split; [reflexivity|]. split; [reflexivity|].
+  exists [p]. unfold parents. cbn [upd_frames st_frames]. rewrite map_app. reflexivity.
+Qed.
 Lemma good_env_define id n v : good (env_define id n v).
 Proof.
-  intros st x st' H. unfold env_define in H. destruct (get_frame st id); [|discriminate].
-  destruct (amem n (f_binds f)); [discriminate|]. injection H as _ <-. apply R_put_frame.
+  intros st x st' H. unfold env_define in H. destruct (get_frame st id) eqn:E; [|discriminate].
+  destruct (amem n (f_binds f)); [discriminate|]. injection H as _ <-. eapply R_put_frame; [exact E|reflexivity].
 Qed.
 Lemma good_env_undefine id n : good (env_undefine id n).
 Proof.
-  intros st x st' H. unfold env_undefine in H. destruct (get_frame st id); [|discriminate].
-  destruct (amem n (f_binds f)); [|discriminate]. injection H as _ <-. apply R_put_frame.
+  intros st x st' H. unfold env_undefine in H. destruct (get_frame st id) eqn:E; [|discriminate].
+  destruct (amem n (f_binds f)); [|discriminate]. injection H as _ <-. eapply R_put_frame; [exact E|reflexivity].
 Qed.
 Lemma good_env_read id n : good (env_read id n).
 Proof.
@@ -86,8 +120,8 @@ Proof.
 Qed.
 Lemma good_frame_store fid n v : good (frame_store fid n v).
 Proof.
-  intros st x st' H. unfold frame_store in H. destruct (get_frame st fid); [|discriminate].
-  injection H as _ <-. apply R_put_frame.
+  intros st x st' H. unfold frame_store in H. destruct (get_frame st fid) eqn:E; [|discriminate].
+  injection H as _ <-. eapply R_put_frame; [exact E|reflexivity].
 Qed.
 Lemma good_env_write id n v : good (env_write id n v).
 Proof.
@@ -215,9 +249,9 @@ Section WithEv.
     binv H. injection E1 as _ <-.
     binv H. pose proof (Hev _ _ _ _ E1) as R3.
     binv H. injection E2 as _ <-. injection H as _ <-.
-    destruct R1 as [C1 S1], R2 as [C2 S2], R3 as [C3 S3]. split.
-    - reflexivity.
+    destruct R1 as [C1 [S1 F1]], R2 as [C2 [S2 F2]], R3 as [C3 [S3 F3]]. split; [reflexivity|]. split.
     - cbn [upd_cur st_cont] in *. congruence.
+    - heap_chain.
   Qed.
   Hint Resolve good_eval_closure : goodb.
 
@@ -276,9 +310,10 @@ Section WithEv.
     binv H. pose proof (good_eval_args _ _ _ _ E2) as R3.
     binv H. pose proof (good_last_or _ _ _ _ E3) as R4.
     binv H. injection E4 as _ <-. injection H as _ <-.
-    destruct R0 as [C0 S0], R1 as [C1 S1], R2 as [C2 S2], R3 as [C3 S3], R4 as [C4 S4]. split.
+    destruct R0 as [C0 [S0 F0]], R1 as [C1 [S1 F1]], R2 as [C2 [S2 F2]], R3 as [C3 [S3 F3]], R4 as [C4 [S4 F4]]. split; [|split].
     - cbn [upd_cur st_cur]. congruence.
     - cbn [upd_cur st_cont] in *. congruence.
+    - heap_chain.
   Qed.
 
   Lemma good_op_set args : good (op_set ev args).
@@ -428,14 +463,15 @@ Section WithEv.
     intros st a st' H. binv H. injection E as <- <-.
     destruct (all_in_range (c_traces (st_cont st)) off); [|injection H as _ <-; apply R_refl].
     binv H. injection E as _ <-.
-    binv H. pose proof (good_step_all_m _ _ _ _ E) as [C1 S1].
-    binv H. pose proof (Hev _ _ _ _ E0) as [C2 S2].
+    binv H. pose proof (good_step_all_m _ _ _ _ E) as [C1 [S1 F1]].
+    binv H. pose proof (Hev _ _ _ _ E0) as [C2 [S2 F2]].
     binv H. unfold restore_m in E1. binv E1. injection E2 as <- <-.
     match type of E1 with (match ?x with _ => _ end) _ = _ => destruct x as [c|] eqn:Ec end; [|unfold fail in E1; discriminate].
     unfold modify in E1. injection E1 as _ <-. unfold ret in H. injection H as _ <-.
-    cbn [upd_cont st_cur st_cont cont_store c_stack] in *. split.
+    cbn [upd_cont st_cur st_cont cont_store c_stack] in *. split; [|split].
     - unfold upd_cont. cbn [st_cur]. congruence.
     - unfold upd_cont. cbn [st_cont]. eapply cont_restore_stack; [exact Ec|]. rewrite S2, S1. reflexivity.
+    - heap_chain.
   Qed.
 
   Lemma good_set_scope_cs s : good (set_scope_cs s). Proof. unfold set_scope_cs. solve_good. Qed.
@@ -453,7 +489,7 @@ Section WithEv.
   Lemma good_op_in_group args : good (op_in_group ev args).
   Proof.
     unfold op_in_group. solve_good.
-    all: try (split; reflexivity).
+    all: try R_triv.
   Qed.
   Hint Resolve good_op_in_group : goodb.
   Lemma good_op_in_groups args : good (op_in_groups ev args).
@@ -666,7 +702,7 @@ Section WithEv.
     binv E. apply env_read_state in E0. subst s0.
     destruct a1; try (injection E as _ <-; apply R_refl).
     (* a macro call: the expansion runs in a fresh frame and the caller's frame is put back *)
-    binv E. pose proof (good_new_frame _ _ _ _ E0) as [C1 S1].
+    binv E. pose proof (good_new_frame _ _ _ _ E0) as [C1 [S1 F1]].
     binv E.
     assert (R3 : R s0 s1).
     { revert E1.
@@ -675,26 +711,26 @@ Section WithEv.
       - match goal with |- (if ?w then _ else _) _ = _ -> _ => destruct w | |- (match ?w with _ => _ end) _ = _ -> _ => destruct w end;
           try (intros E1; discriminate).
         apply good_bind; [apply good_assert|intros; apply good_macro_params]. }
-    destruct R3 as [C3 S3].
+    destruct R3 as [C3 [S3 F3]].
     binv E. unfold modify in E2. injection E2 as _ <-.
-    binv E. pose proof (Hev _ _ _ _ E2) as [C4 S4].
+    binv E. pose proof (Hev _ _ _ _ E2) as [C4 [S4 F4]].
     binv E.
     assert (R5 : R s2 s3).
     { revert E3. match goal with |- (match ?x with _ => _ end) _ = _ -> _ => destruct x end;
         try (intros E3; discriminate); try apply good_ret.
       match goal with |- (if ?w then _ else _) _ = _ -> _ => destruct w | |- (match ?w with _ => _ end) _ = _ -> _ => destruct w end;
         try (intros E3; discriminate); apply good_ret. }
-    destruct R5 as [C5 S5].
-    binv E. pose proof (Hex _ _ _ _ _ E4) as [C6 S6].
+    destruct R5 as [C5 [S5 F5]].
+    binv E. pose proof (Hex _ _ _ _ _ E4) as [C6 [S6 F6]].
     binv E. unfold modify in E5. injection E5 as _ <-.
     assert (Hst : s = upd_cur s4 (st_cur st)).
     { revert E. match goal with |- (match ?x with _ => _ end) _ = _ -> _ => destruct x end;
         try (intros E; unfold ret in E; injection E as _ <-; reflexivity).
       match goal with |- (if ?w then _ else _) _ = _ -> _ => destruct w | |- (match ?w with _ => _ end) _ = _ -> _ => destruct w end;
         intros E; unfold ret in E; injection E as _ <-; reflexivity. }
-    subst s. split.
-    - reflexivity.
+    subst s. split; [reflexivity|]. split.
     - cbn [upd_cur st_cont] in *. congruence.
+    - heap_chain.
   Qed.
 End WithEv.
 
@@ -711,5 +747,6 @@ Qed.
 
 Corollary eval_balanced lf fuel e st v st' :
   eval lf fuel e st = Ok v st' ->
-  st_cur st' = st_cur st /\ c_stack (st_cont st') = c_stack (st_cont st).
+  st_cur st' = st_cur st /\ c_stack (st_cont st') = c_stack (st_cont st) /\
+  exists extra, parents st' = parents st +++ extra.
 Proof. intros H. exact (proj1 (eval_expand_balanced lf fuel) e st v st' H). Qed.
